@@ -115,6 +115,42 @@ fn decode(u: &mut Unstructured, tier: Tier, big: bool) -> Case {
     Case { k, strings, order, via_extend: u.arbitrary().unwrap_or(false), seed }
 }
 
+/// Lists whose rear lengths (length of the previous string minus the common
+/// prefix) fall just around and well inside the 3- and 4-byte code regimes.
+fn long_rear_case(j: u64) -> Case {
+    const B3: usize = 128 + 128 * 128; // 16512
+    const B4: usize = B3 + 128 * 128 * 128; // 2113664
+    let mut x = j.wrapping_mul(0x9E37_79B9_7F4A_7C15) | 1;
+    let mut next = || {
+        x ^= x << 13;
+        x ^= x >> 7;
+        x ^= x << 17;
+        x as usize
+    };
+    let rear = match j % 8 {
+        0 => B3 + next() % 3,
+        1 => B3 - 1 - next() % 2,
+        2 => B3 + next() % (B4 - B3),
+        3 => B4 + next() % 3,
+        4 => B4 - 1 - next() % 2,
+        5 => B4 + 256 + next() % (1 << 22),
+        6 => B4 + ((next() % 200) << 8) + ((next() % 200) << 16) + next() % 256,
+        _ => B3 + ((next() % 120) << 7) + next() % 128,
+    };
+    let k = [2usize, 4, 3, 8][(j / 8) as usize % 4];
+    // "a", "a" + 'b' * rear (shares "a"), then a short string sharing only "a": its rear length is `rear`
+    let long: String = std::iter::once('a').chain(std::iter::repeat('b').take(rear)).collect();
+    let mut strings = vec!["a".to_string(), long.clone(), "ac".to_string(), "ad".to_string()];
+    if j % 3 == 0 {
+        // a second long string right after the first: large common prefix, small rear length
+        strings.insert(2, format!("{}{}", &long[..long.len() - 5], "c"));
+    }
+    if j % 5 == 0 {
+        strings.push("b".to_string());
+    }
+    Case { k, strings, order: 0, via_extend: j % 2 == 1, seed: j }
+}
+
 fn probes(c: &Case) -> Vec<String> {
     let v = &c.strings;
     let mut p: Vec<String> = vec![String::new(), "a".into(), "\u{1}".into(), "\u{10ffff}".into(), "zzzz".into()];
@@ -275,13 +311,29 @@ impl Property for C09 {
         "C09"
     }
     fn plan(&self, tier: Tier) -> Vec<Segment> {
-        vec![Segment::random("lists", tier.pick(40_000, 500_000), &[0], 8, 1500), Segment::random("big-lists", tier.pick(4_000, 60_000), &[1], 16, 6000)]
+        vec![
+            Segment::random("lists", tier.pick(40_000, 500_000), &[0], 8, 1500),
+            Segment::random("big-lists", tier.pick(4_000, 60_000), &[1], 16, 6000),
+            // rear lengths crossing the variable-byte boundaries 16512 and 2113664 (3- and 4-byte codes)
+            Segment::enumerated("long-rear-lengths", tier.pick(16, 120), &[2]),
+        ]
     }
     fn rule(&self) -> &'static str {
         "case = (block size k in {1,2,3,4,8,16,n-1,n,n+1,..20}, n strings without NUL built as prefix families over 6 alphabets (a/b, ASCII, 2/3/4-byte UTF-8, low code points) with lengths around 127..130 (thorough: a family with >=16512-byte suffixes), order in {sorted, reversed, sorted with duplicates, unsorted}, push or extend) decoded from bytes; oracle = the Vec<String>; observed len, get, get_in_place for every i, iter/into_iter/into_lender/lend, iter_from/lend_from/into_iter_from for every start 0..=n (sampled above 80) with len/size_hint before every next, index_of/contains for stored strings, prefixes, extensions, neighbours and strings between neighbours. Non-trivial: n>=2 with a non-empty shared prefix between two consecutive strings, or labels n=0, n%k=0, rear>=128, dups, unsorted, multibyte; distinct = distinct hash of the decoded case."
     }
     fn run(&self, data: &[u8], cx: &mut Ctx) -> R {
         let (mode, rest) = data.split_first().unwrap_or((&0, &[]));
+        if *mode == 2 {
+            let mut b = [0u8; 8];
+            b[..rest.len().min(8)].copy_from_slice(&rest[..rest.len().min(8)]);
+            let c = long_rear_case(u64::from_le_bytes(b));
+            cx.hash(&("long-rear", u64::from_le_bytes(b)));
+            cx.describe(|| format!("long rear lengths: k={} n={} string lengths {:?}", c.k, c.strings.len(), c.strings.iter().map(|s| s.len()).collect::<Vec<_>>()));
+            cx.label("rear>=16512");
+            cx.label_if(c.strings.iter().any(|s| s.len() >= 2_113_664), "rear>=2113664");
+            cx.nontrivial();
+            return check(cx, &c);
+        }
         let mut u = Unstructured::new(rest);
         let c = decode(&mut u, cx.tier, *mode == 1);
         cx.hash(&c);
